@@ -91,6 +91,17 @@ def meaningful():
     return _MEANINGFUL_NOW
 
 
+def new_numbers(limit=24):
+    """Numbers below 2^31 that the code under test holds now and the pinned tree did not (constants and digits inside identifiers)."""
+    try:
+        from . import harvest
+        from .core import REPO
+        base = harvest.baseline()
+        return sorted(k for k in harvest.ints(REPO) if 0 <= k < H and k not in base)[:limit]
+    except Exception:  # noqa
+        return []
+
+
 def account(rnd):
     r = rnd.random()
     if r < 0.25:
